@@ -179,7 +179,7 @@ class Report:
             out.append(f'VIOLATION property={self.pid} replay={path}')
         for e in self.errors:
             out.append(f'ANALYSIS-ERROR property={self.pid} {e}')
-        status = 2 if self.errors else (1 if nviol else 0)
+        status = 1 if nviol else (2 if self.errors else 0)
         self.write_evidence(nviol, nknown, status)
         out.append(f'result: {"OK" if status == 0 else ("VIOLATION" if status == 1 else "ANALYSIS-ERROR")}'
                    f' ({nviol} violation group(s), {nknown} known finding(s),'
